@@ -10,6 +10,7 @@ import (
 	"sort"
 	"strconv"
 	"strings"
+	"unicode/utf8"
 
 	"github.com/formancehq/numscript/internal/lsp"
 	"github.com/formancehq/numscript/verifharness/fw"
@@ -233,9 +234,78 @@ var baseTexts = []string{
 	"vars { monetary $amt account $dst }\nsend $amt (source = @world destination = $dst)\nset_tx_meta(\"k\", $amt)",
 	"vars { account $dst number $n }\nsend [USD $n] (source = { @a @b } destination = $dst)",
 	"vars { portion $p }\nsend [COIN 10] (source = @world destination = { $p to @x remaining kept })\nset_account_meta(@x, \"p\", $p)",
-	"vars { monetary $amt \nsend $amt (source = @world destination = ",                                    // broken
-	"vars { monetary $amt }\nsend $amt (source = @world destination = @x)\n// a comment on the last line", // a comment only once a newline follows
-	"vars { monetary $amt }\nsend $amt (source = @world destination = ",                                   // error anchored at the end of the text
+	"vars { monetary $amt \nsend $amt (source = @world destination = ",                                             // broken
+	"vars { monetary $amt }\nsend $amt (source = @world destination = @x)\n// a comment on the last line",          // a comment only once a newline follows
+	"vars { monetary $amt }\nsend $amt (source = @world destination = ",                                            // error anchored at the end of the text
+	"/* 😀𝄞 */ vars { monetary $amt }\nsend $amt (source = @world destination = @x) // 😀\nset_tx_meta(\"😀\", $amt)", // characters outside the BMP before the edited places
+}
+
+// syncKind is what the server advertises in its answer to initialize (1 = full texts only,
+// 2 = incremental): a client only sends ranged changes to a server that asks for them.
+var syncKind = -1
+
+func serverSyncKind() int {
+	if syncKind >= 0 {
+		return syncKind
+	}
+	st := lsp.InitialState()
+	resp, _, pk, _, _ := handle(&st, "initialize", map[string]any{"processId": 1, "capabilities": map[string]any{}})
+	syncKind = 0
+	if pk {
+		return syncKind
+	}
+	var v struct {
+		Capabilities struct {
+			TextDocumentSync json.RawMessage `json:"textDocumentSync"`
+		} `json:"capabilities"`
+	}
+	if json.Unmarshal([]byte(resp), &v) == nil {
+		var opts struct {
+			Change int `json:"change"`
+		}
+		var kind int
+		if json.Unmarshal(v.Capabilities.TextDocumentSync, &opts) == nil && opts.Change != 0 {
+			syncKind = opts.Change
+		} else if json.Unmarshal(v.Capabilities.TextDocumentSync, &kind) == nil {
+			syncKind = kind
+		}
+	}
+	return syncKind
+}
+
+// lspPos converts a byte offset of text to an LSP position (line, UTF-16 code units).
+func lspPosAt(text string, off int) map[string]any {
+	line, col := 0, 0
+	for _, r := range text[:off] {
+		switch {
+		case r == '\n':
+			line, col = line+1, 0
+		case r > 0xFFFF:
+			col += 2
+		default:
+			col++
+		}
+	}
+	return map[string]any{"line": line, "character": col}
+}
+
+// rangedChange is the smallest single ranged edit that turns old into new.
+func rangedChange(old, new string) map[string]any {
+	p := 0
+	for p < len(old) && p < len(new) && old[p] == new[p] {
+		p++
+	}
+	for p > 0 && p < len(old) && !utf8.RuneStart(old[p]) {
+		p--
+	}
+	s := 0
+	for s < len(old)-p && s < len(new)-p && old[len(old)-1-s] == new[len(new)-1-s] {
+		s++
+	}
+	for s > 0 && !utf8.RuneStart(old[len(old)-s]) {
+		s--
+	}
+	return map[string]any{"range": map[string]any{"start": lspPosAt(old, p), "end": lspPosAt(old, len(old)-s)}, "text": new[p : len(new)-s]}
 }
 
 // positions probed by hover / definition in histories (chosen to fall on variable uses in some
@@ -284,7 +354,14 @@ func (rn *runner) replay(ops []op, label string) bool {
 			}
 			wsText = strings.TrimRight(base, " \t\r\n") + wsVariants[o.text%len(wsVariants)]
 		}
+		prevText, hadPrev := latest[o.uri]
 		method, p := params(o, tf, histPositions)
+		if o.kind == "change" && hadPrev && serverSyncKind() == 2 && (i+o.text)%3 != 0 {
+			// the server asked for incremental changes: send this one as a ranged edit
+			pm := p.(map[string]any)
+			pm["contentChanges"] = []any{rangedChange(prevText, textOf[version])}
+			c.Count("ranged_changes_sent", 1)
+		}
 		// what the written text is (the last content change)
 		var written string
 		isWrite := o.kind == "open" || o.kind == "change" || o.kind == "change2" || o.kind == "openplain" || o.kind == "changews"
@@ -433,7 +510,7 @@ func runC19(c *fw.Ctx) {
 		l := r.Range(5, 200)
 		ops := make([]op, l)
 		for j := range ops {
-			o := op{uri: r.Intn(4), text: r.Intn(4), text0: r.Intn(4), pos: r.Intn(len(histPositions))}
+			o := op{uri: r.Intn(4), text: []int{0, 1, 2, 3, 6, 6}[r.Intn(6)], text0: r.Intn(4), pos: r.Intn(len(histPositions))}
 			o.uri = r.Intn(len(uriShapes))
 			o.kind = r.Pick("open", "openplain", "change", "change", "change2", "changews", "changews", "hover", "hover", "definition", "symbols")
 			if o.kind == "openplain" {
